@@ -21,7 +21,8 @@ ASSUMPTIONS = ["liveness is restated as bounded progress; a watchdog timeout wit
 FLOORS = {"timer_evaluations": {"quick": 1500, "thorough": 30000}, "requests_honoured": {"quick": 1200, "thorough": 25000},
           "stops_checked": {"quick": 40, "thorough": 800}, "stops_while_waiting": {"quick": 15, "thorough": 300},
           "due_alarms": {"quick": 30, "thorough": 500}, "lagging_runs": {"quick": 20, "thorough": 400},
-          "pushes_while_waiting_checked": {"quick": 300, "thorough": 5000}, "idle_stops_checked": {"quick": 8, "thorough": 150}, "lagging_bursts_of_1024_steps": {"quick": 5, "thorough": 100}}
+          "pushes_while_waiting_checked": {"quick": 300, "thorough": 5000}, "idle_stops_checked": {"quick": 8, "thorough": 150}, "lagging_bursts_of_1024_steps": {"quick": 5, "thorough": 100},
+          "push_source_timers_honoured": {"quick": 25, "thorough": 400}, "push_source_timers_with_earlier_push": {"quick": 10, "thorough": 150}}
 
 
 def gen(rng, k, seed):
@@ -77,7 +78,36 @@ def gen_push(rng, k, seed):
     return sc
 
 
+def gen_pstimer(rng, k, seed):
+    """A push source that also owns timers (scheduler extension, wake-ups armed from its start hook), alone or next to a second
+    plain push source: values are pushed BEFORE the timers fall due, so the source is evaluated for the push while its own slot
+    still holds a future time. The run ends at its end time, every armed wake-up inside the window is owed at exactly its time."""
+    end_ms = rng.choice([80, 120, 160])
+    nt = rng.choice([1, 2, 3])
+    timers = sorted(rng.sample(range(20000, (end_ms - 15) * 1000, 1000), nt))
+    kv = dict(kind="pstimer", timers=",".join(str(t) for t in timers), msgs=rng.choice([0, 1, 3, 6, 12]), gap_us=rng.choice([2000, 5000, 9000]),
+              two=rng.choice([0, 1]), end_ms=end_ms, seed=rng.randrange(1 << 30))
+    if rng.random() < 0.4:
+        kv["delays"] = ",".join(f"{h}:{rng.choice([50, 300])}:{rng.choice([1, 2, 5])}" for h in rng.sample(["rt.wait.enter", "rt.wait.leave"], 1))
+    return Scenario(f"c17_{seed}_pt{k}", kv)
+
+
 def check(sc, tr, rc):
+    if sc.kv.get("kind") == "pstimer" and tr is not None:
+        # the evaluations of the push source for pushed values are not timer evaluations: only the armed times are judged
+        import copy
+        tr = copy.copy(tr)
+        armed = {r[2] for r in tr.requests}
+        pushes_before = sum(1 for d in tr.deliveries if any(d[0] < w for w in armed))
+        tr.timers = [t for t in tr.timers if t[1] in armed or t[2] < t[1]]       # (an early evaluation is still a violation)
+        V, C, verdict = _check(sc, tr, rc)
+        C["push_source_timers_honoured"] = C.get("requests_honoured", 0)
+        C["push_source_timers_with_earlier_push"] = 1 if pushes_before else 0
+        return V, C, verdict
+    return _check(sc, tr, rc)
+
+
+def _check(sc, tr, rc):
     if sc.kv.get("delegate") == "c16":
         from . import c16
         V, C, verdict = c16.check(sc, tr, rc)
@@ -211,7 +241,8 @@ def main(tier, seed, replay):
         rp = json.load(open(replay))
         scs = [Scenario(rp["scenario"]["name"], rp["scenario"]["kv"])]
     else:
-        scs = [gen(rng, k, seed) for k in range(n)] + [gen_push(rng, k, seed) for k in range(n // 5)]
+        scs = [gen(rng, k, seed) for k in range(n)] + [gen_push(rng, k, seed) for k in range(n // 5)] + \
+              [gen_pstimer(rng, k, seed) for k in range(n // 5)]
     results = run_scenarios(exe, scs, f"C17.{tier}.{seed}", workers=6 if tier == "quick" else 8, timeout=30)
     counters, hard, inconc = {}, [], []
     nontriv, samples = set(), []
